@@ -115,10 +115,16 @@ class FitProperties(dict):
             value = copy.deepcopy(value)
         super(FitProperties, self).__setitem__(key, value)
 
+    #: optional callable that is invoked whenever the fit results are
+    #: discarded (used by `Indentation` to discard the fit columns as well)
+    on_reset = None
+
     def reset(self):
         for key in list(self.keys()):
             if key not in FP_DEFAULT:
                 self.pop(key)
+        if self.on_reset is not None:
+            self.on_reset()
 
     def restore(self, props):
         """update the dictionary without removing any keys"""
